@@ -105,6 +105,18 @@ theorem C14_step_without_map {d : Doc} (wf : WF d) (cfg : ECfg) (hinj : HashInj 
   step_noNS wf cfg hinj axis ha mt hmt pfx lname hl c hc
 
 open XPathV.PathSem XPathV.NameSem in
+/-- `C14_step_without_map` without the `HashInj` hypothesis (it is a theorem now: `hashInj_holds`; the side
+condition left is "no element has two attributes with the same prefix, name and value") -/
+theorem C14_step_without_map_unconditional {d : Doc} (wf : WF d) (cfg : ECfg) (hattr : AttrTriplesDistinct d)
+    (axis : String) (ha : axis ∈ axes12) (mt : NType) (hmt : mt ≠ .all)
+    (pfx lname : String) (hl : lname ≠ "") (c : Ref) (hc : validRef d c = true) :
+    ∃ out, sel (F := F) d cfg (stepPlan ⟨axis, mt, pfx, lname, "", false, ""⟩ .context) c = .ok out ∧
+      ∀ x, x ∈ refs out ↔
+        (x ∈ (Spec.axisNodes d axis c).getD [] ∧
+          nodeType d x = mt ∧ prefixOf d x = pfx ∧ localName d x = lname) :=
+  C14_step_without_map wf cfg (PathSem.hashInj_holds wf hattr cfg) axis ha mt hmt pfx lname hl c hc
+
+open XPathV.PathSem XPathV.NameSem in
 /-- **… with a map binding the prefix** (`CompileWithNS`, navigator exposing URIs): by (bound URI,
 local name); the prefix used in the document does not occur in the statement -/
 theorem C14_step_with_map {d : Doc} (wf : WF d) (cfg : ECfg) (hinj : HashInj d cfg) (hi : cfg.nsIface = true)
@@ -117,6 +129,19 @@ theorem C14_step_with_map {d : Doc} (wf : WF d) (cfg : ECfg) (hinj : HashInj d c
   step_NS wf cfg hinj hi axis ha mt hmt pfx lname uri hl c hc
 
 open XPathV.PathSem XPathV.NameSem in
+/-- `C14_step_with_map` without the `HashInj` hypothesis (it is a theorem now: `hashInj_holds`; the side
+condition left is "no element has two attributes with the same prefix, name and value") -/
+theorem C14_step_with_map_unconditional {d : Doc} (wf : WF d) (cfg : ECfg) (hattr : AttrTriplesDistinct d) (hi : cfg.nsIface = true)
+    (axis : String) (ha : axis ∈ axes12) (mt : NType) (hmt : mt ≠ .all)
+    (pfx lname uri : String) (hl : lname ≠ "") (c : Ref) (hc : validRef d c = true) :
+    ∃ out, sel (F := F) d cfg (stepPlan ⟨axis, mt, pfx, lname, "", true, uri⟩ .context) c = .ok out ∧
+      ∀ x, x ∈ refs out ↔
+        (x ∈ (Spec.axisNodes d axis c).getD [] ∧
+          nodeType d x = mt ∧ nsURL d x = uri ∧ localName d x = lname) :=
+  C14_step_with_map wf cfg (PathSem.hashInj_holds wf hattr cfg) hi axis ha mt hmt pfx lname uri hl c
+    hc
+
+open XPathV.PathSem XPathV.NameSem in
 /-- **… with a map but a navigator without `NamespaceURL()`**: the binding is ignored and the test
 compares (prefix as written, local name) with the document's prefixes — the third branch -/
 theorem C14_step_with_map_no_uri_interface {d : Doc} (wf : WF d) (cfg : ECfg) (hinj : HashInj d cfg)
@@ -127,6 +152,19 @@ theorem C14_step_with_map_no_uri_interface {d : Doc} (wf : WF d) (cfg : ECfg) (h
         (x ∈ (Spec.axisNodes d axis c).getD [] ∧
           nodeType d x = mt ∧ prefixOf d x = pfx ∧ localName d x = lname) :=
   step_NS_noIface wf cfg hinj hi axis ha mt hmt pfx lname uri hl c hc
+
+open XPathV.PathSem XPathV.NameSem in
+/-- `C14_step_with_map_no_uri_interface` without the `HashInj` hypothesis (it is a theorem now: `hashInj_holds`; the side
+condition left is "no element has two attributes with the same prefix, name and value") -/
+theorem C14_step_with_map_no_uri_interface_unconditional {d : Doc} (wf : WF d) (cfg : ECfg) (hattr : AttrTriplesDistinct d)
+    (hi : cfg.nsIface = false) (axis : String) (ha : axis ∈ axes12) (mt : NType)
+    (hmt : mt ≠ .all) (pfx lname uri : String) (hl : lname ≠ "") (c : Ref) (hc : validRef d c = true) :
+    ∃ out, sel (F := F) d cfg (stepPlan ⟨axis, mt, pfx, lname, "", true, uri⟩ .context) c = .ok out ∧
+      ∀ x, x ∈ refs out ↔
+        (x ∈ (Spec.axisNodes d axis c).getD [] ∧
+          nodeType d x = mt ∧ prefixOf d x = pfx ∧ localName d x = lname) :=
+  C14_step_with_map_no_uri_interface wf cfg (PathSem.hashInj_holds wf hattr cfg) hi axis ha mt hmt
+    pfx lname uri hl c hc
 
 open XPathV.PathSem XPathV.NameSem in
 /-- **C14 (main theorem, whole paths, through the builder)**: for every predicate-free path whose
@@ -144,6 +182,19 @@ theorem C14_main {d : Doc} (wf : WF d) (cfg : ECfg) (hns : cfg.nsIface = true)
   NameSem.C14_main wf cfg hns hinj regexOk limit sdf ns p hp st o hb c hc
 
 open XPathV.PathSem XPathV.NameSem in
+/-- `C14_main` without the `HashInj` hypothesis (it is a theorem now: `hashInj_holds`; the side
+condition left is "no element has two attributes with the same prefix, name and value") -/
+theorem C14_main_unconditional {d : Doc} (wf : WF d) (cfg : ECfg) (hns : cfg.nsIface = true)
+    (hattr : AttrTriplesDistinct d) (regexOk : RegexOk) (limit : Nat) (sdf : Bool)
+    (ns : Option (List (String × String))) (p : Ast) (hp : NamePath ns p)
+    (st : BState) (o : BOut) (hb : build regexOk limit true sdf p {} st = .ok o)
+    (c : Ref) (hc : validRef d c = true) :
+    ∃ out nodes g, sel (F := F) d cfg o.q c = .ok out ∧
+      Spec.eval (F := F) d p ⟨c, 1, 1⟩ = .ok (.val (.nodes nodes) g) ∧
+      (∀ x, x ∈ refs out ↔ x ∈ nodes) ∧ (∀ x, x ∈ refs out ↔ nameDen d p c x) :=
+  C14_main wf cfg hns (PathSem.hashInj_holds wf hattr cfg) regexOk limit sdf ns p hp st o hb c hc
+
+open XPathV.PathSem XPathV.NameSem in
 /-- **regardless of the prefix used in the document**: two documents with the same shape, local
 names and namespace URIs (prefixes arbitrary) give the same node set for every path of bound name
 tests -/
@@ -156,6 +207,23 @@ theorem C14_document_prefixes_irrelevant {d₁ d₂ : Doc} (wf₁ : WF d₁) (hs
     ∃ out₁ out₂, sel (F := F) d₁ cfg o.q c = .ok out₁ ∧ sel (F := F) d₂ cfg o.q c = .ok out₂ ∧
       ∀ x, x ∈ refs out₁ ↔ x ∈ refs out₂ :=
   prefix_irrelevant_path wf₁ hs cfg hi hinj₁ hinj₂ regexOk limit sdf ns p hp hb st o hbd c hc
+
+open XPathV.PathSem XPathV.NameSem in
+/-- `C14_document_prefixes_irrelevant` without the `HashInj` hypotheses (they are theorems now:
+`hashInj_holds`; the side condition left, for each document, is "no element has two attributes with
+the same prefix, name and value"; the second document is well-formed because it has the shape of the
+first) -/
+theorem C14_document_prefixes_irrelevant_unconditional {d₁ d₂ : Doc} (wf₁ : WF d₁) (hs : SameNames d₁ d₂)
+    (cfg : ECfg) (hi : cfg.nsIface = true)
+    (hattr₁ : AttrTriplesDistinct d₁) (hattr₂ : AttrTriplesDistinct d₂)
+    (regexOk : RegexOk) (limit : Nat) (sdf : Bool)
+    (ns : Option (List (String × String))) (p : Ast) (hp : NamePath ns p) (hb : AllBound p)
+    (st : BState) (o : BOut) (hbd : build regexOk limit true sdf p {} st = .ok o)
+    (c : Ref) (hc : validRef d₁ c = true) :
+    ∃ out₁ out₂, sel (F := F) d₁ cfg o.q c = .ok out₁ ∧ sel (F := F) d₂ cfg o.q c = .ok out₂ ∧
+      ∀ x, x ∈ refs out₁ ↔ x ∈ refs out₂ :=
+  C14_document_prefixes_irrelevant wf₁ hs cfg hi (PathSem.hashInj_holds wf₁ hattr₁ cfg)
+    (PathSem.hashInj_holds (hs.toSameShape.wf wf₁) hattr₂ cfg) regexOk limit sdf ns p hp hb st o hbd c hc
 
 open XPathV.NameSem in
 /-- **an unbound prefix is a compile error**, from the expression text (`prefix:name` as the whole
@@ -193,5 +261,22 @@ theorem C14_name_functions_nodeset_argument {d : Doc} (wf : WF d) (cfg : ECfg) (
       Spec.eval (F := F) d (.call nm pfx (.acons p .anil)) ⟨c, i, n⟩ =
         .ok (.val (.str (firstOr (specName d nm) ns)) none) :=
   name1_flat_sem wf cfg hi hinj regexOk limit sdf nm pfx hnm p hp fl st o hb c hc i n
+
+open XPathV.PathSem XPathV.NameSem in
+/-- `C14_name_functions_nodeset_argument` without the `HashInj` hypothesis (it is a theorem now: `hashInj_holds`; the side
+condition left is "no element has two attributes with the same prefix, name and value") -/
+theorem C14_name_functions_nodeset_argument_unconditional {d : Doc} (wf : WF d) (cfg : ECfg) (hi : cfg.nsIface = true)
+    (hattr : AttrTriplesDistinct d) (regexOk : RegexOk) (limit : Nat) (sdf : Bool) (nm pfx : String)
+    (hnm : nm ∈ nameFns) (p : Ast) (hp : ArithSem.FlatPath p) (fl : Flags) (st : BState) (o : BOut)
+    (hb : build regexOk limit true sdf (.call nm pfx (.acons p .anil)) fl st = .ok o)
+    (c : Ref) (hc : validRef d c = true) (i n : Nat) :
+    ∃ (ns : List Ref) (g : Option (List (List Ref))),
+      Spec.eval (F := F) d p ⟨c, 1, 1⟩ = .ok (.val (.nodes ns) g) ∧
+      ns.Pairwise (fun a b => Ref.lt a b = true) ∧
+      evalP (F := F) d cfg o.q c = .ok (.str (firstOr (specName d nm) ns)) ∧
+      Spec.eval (F := F) d (.call nm pfx (.acons p .anil)) ⟨c, i, n⟩ =
+        .ok (.val (.str (firstOr (specName d nm) ns)) none) :=
+  C14_name_functions_nodeset_argument wf cfg hi (PathSem.hashInj_holds wf hattr cfg) regexOk limit
+    sdf nm pfx hnm p hp fl st o hb c hc i n
 
 end XPathV.Theorems.C14
